@@ -1,7 +1,7 @@
 """Generated modules whose doctests have by-construction outcomes (shared by C10, C15, C11)."""
 
 KINDS = ['pass', 'fail_output', 'fail_exc', 'all_skipped', 'partly_skipped', 'expected_exc', 'disabled', 'comment_only',
-         'note_then_skip', 'skip_then_note', 'fail_directive_first', 'fail_compile_first', 'late_disable_word']
+         'note_then_skip', 'skip_then_note', 'fail_directive_first', 'fail_compile_first', 'late_disable_word', 'warn_then_fail', 'warn_then_pass']
 DISABLE_WORDS = ['# DISABLE_DOCTEST', '#DISABLE', '#  unstable', '# FAILING', '#SCRIPT', '# slow_doctest']
 
 
@@ -34,6 +34,11 @@ def doc_lines(kind, n):
     if kind == 'late_disable_word':
         # a force-disable word in a comment that is NOT on the first line: the doctest is enabled and passes
         return [">>> print('l%d')" % n, 'l%d' % n, '>>> ' + DISABLE_WORDS[n % len(DISABLE_WORDS)] + ' is only honoured on line one', ">>> print('m%d')" % n, 'm%d' % n]
+    if kind == 'warn_then_fail':
+        # emits a warning that is recorded for the doctest, then fails
+        return ['>>> import warnings', ">>> warnings.warn('careful %d')" % n, ">>> print('a%d')" % n, 'b%d' % n]
+    if kind == 'warn_then_pass':
+        return ['>>> import warnings', ">>> warnings.warn('careful %d', RuntimeWarning)" % n, ">>> print('a%d')" % n, 'a%d' % n]
     if kind == 'comment_only':
         return ['>>> # nothing but a comment %d' % n]
     raise KeyError(kind)
@@ -42,7 +47,7 @@ def doc_lines(kind, n):
 # verdict when the doctest is run
 VERDICT = {'pass': 'passed', 'fail_output': 'failed', 'fail_exc': 'failed', 'all_skipped': 'skipped',
            'partly_skipped': 'passed', 'expected_exc': 'passed', 'disabled': 'failed', 'comment_only': 'skipped',
-           'note_then_skip': 'skipped', 'skip_then_note': 'skipped', 'fail_directive_first': 'failed', 'fail_compile_first': 'failed', 'late_disable_word': 'passed'}
+           'note_then_skip': 'skipped', 'skip_then_note': 'skipped', 'fail_directive_first': 'failed', 'fail_compile_first': 'failed', 'late_disable_word': 'passed', 'warn_then_fail': 'failed', 'warn_then_pass': 'passed'}
 
 
 def module_source(kinds, layout='functions'):
